@@ -583,3 +583,32 @@ def rule_kernels(ctx):
     for k in sorted(KERNELS):
         verify_kernel(ctx, ctx.prog, k)
     ctx.floor("F8", 20, len([i for i in ctx.instances if i.rule == "F8"]), "(kernel path obligations)")
+
+
+def rule_flavour_mask_operand(ctx):
+    """NTMASK (C06): the byte-order flavour of a number type lives in flag bits of the *HDF* number type (DFNT_LITEND 0x4000,
+    DFNT_NATIVE 0x1000).  The SD layer keeps two type fields per variable and attribute: `type` (an nc_type, a small
+    enumeration) and `HDFtype`.  A flavour mask applied to a value whose static type is nc_type is always 0, so a little-endian
+    data set is described as big-endian in the number-type record written for it."""
+    from .facts import int_name
+    prog = ctx.prog
+    n = 0
+    for f in prog.lib_funcs():
+        ordn = 0
+        for _b, _i, s, x in f.nodes(True):
+            if x[0] != "bin" or x[1] != "&":
+                continue
+            for m, o in ((x[2], x[3]), (x[3], x[2])):
+                if kind(strip(m)) == "int" and int_name(m) in ("DFNT_LITEND", "DFNT_NATIVE", "DFNT_CUSTOM"):
+                    ordn += 1
+                    n += 1
+                    key = "NTMASK:%s#%d" % (f.name, ordn)
+                    uo = strip(o)
+                    ty = uo[4] if kind(uo) == "mem" else (uo[3] if kind(uo) == "var" else None)
+                    if ty and "nc_type" in str(ty):
+                        ctx.violated("NTMASK", key, f.where(s.get("l")), "`%s` applies the number-type flag %s to a value of type nc_type: the result is always 0 and the flavour of the "
+                                     "data is lost" % (render(x)[:60], int_name(m)))
+                    else:
+                        ctx.holds("NTMASK", key, f.where(s.get("l")), "`%s`" % render(x)[:60], nontrivial=False)
+    ctx.floor("NTMASK", 10, n, "(uses of the number-type flavour masks)")
+    return n
